@@ -198,6 +198,16 @@ def chains(run):
     C.append(('numpy 2bit -> crop -> reblock', [numpy((9, 66, 1030), 2, (4, 4, -1), il=(1, 1), xl=(1, 1)), crop(((0, 8), None, (0, 1024))), reblock()]))
     C.append(('segy -> export -> convert', [segy((5, 6, 40), 16, None, 'heuristic'), reconv(8, (4, 4, -1))]))
     C.append(('segy -> crop -> export+convert', [segy((8, 8, 128), 32, (4, 4, -1), 'heuristic', il=(5, 1), xl=(7, 1)), crop(((4, 8), None, None)), reconv(16, (8, 8, 32))]))
+    # asymmetric extents x non-square blockshapes (padded products differ if two dimensions are exchanged)
+    for shape, rate, bs in (((5, 9, 12), 8, (4, 8, 128)), ((5, 9, 12), 4, (8, 16, 64)), ((9, 5, 12), 4, (16, 8, -1)), ((3, 70, 5), 1, (64, 128, 4)),
+                            ((70, 3, 5), 2, (128, 32, 4)), ((5, 9, 12), 8, (4, 16, 64))):
+        C.append((f'numpy asym {shape} r{rate} {bs}', [numpy(shape, rate, bs, il=(3, 2), xl=(-4, 5), extra=1)]))
+    C.append(('segy asym (9,5,12) r4 (16,8,-1)', [segy((9, 5, 12), 4, (16, 8, -1), 'heuristic', il=(3, 2), xl=(9, 4))]))
+    # crops between footer-stride classes: source arrays exactly 512-aligned -> unaligned crop, unaligned source -> aligned crop
+    C.append(('numpy 8x16 (aligned footer) -> crop 4x16', [numpy((8, 16, 10), 16, (4, 4, -1), il=(1, 1), xl=(1, 1), extra=2), crop(((0, 4), None, None))]))
+    C.append(('numpy 16x16 (aligned footer) -> crop 8x8', [numpy((16, 16, 6), 16, (4, 4, -1), il=(1, 1), xl=(1, 1), extra=1), crop(((4, 12), (0, 8), None))]))
+    C.append(('numpy 16x24 -> crop 8x16 (aligned footer)', [numpy((16, 24, 6), 16, (4, 4, -1), il=(1, 1), xl=(1, 1), extra=3), crop(((8, 16), (4, 20), None))]))
+    C.append(('segy thorough 12x16 -> crop 8x16 -> crop 4x16', [segy((12, 16, 20), 16, None, 'thorough'), crop(((4, 12), None, None)), crop(((0, 4), None, None))]))
     if not quick:
         for shape in [(3, 85, 6), (128, 3, 5), (2, 65, 5), (32, 4, 4), (13, 10, 70), (64, 2, 9)]:
             C.append((f'numpy{shape}', [numpy(shape, 8, (4, 4, -1), il=(2**20, 5), xl=(-2**20, 7), z0=-100, dz=0.5, extra=3)]))
